@@ -287,7 +287,7 @@ def to_trace_run(run, defn):
                 vals = sorted(set(v for _, v in fin))
                 for k, (i, v) in enumerate(fin):
                     if k < len(exps):
-                        sc = Fraction(exps[k][0]).limit_denominator(10 ** 6)
+                        sc = Fraction(exps[k][0]).limit_denominator(2 ** 30)      # exact for every rate whose numerator fits TLC integers
                         glob = (exps[k][1] == v and exps[k][2] == 1)
                     else:
                         sc, glob = Fraction(0), False
